@@ -575,6 +575,9 @@ func (g *Gen) heapTerm(st *State, key, sort string) string {
 		if !g.declared[name] {
 			g.declared[name] = true
 			g.emit("(declare-const " + name + " " + sort + ")")
+			if strings.HasSuffix(key, ".tag") && g.W.constErr[strings.TrimSuffix(key, ".tag")] {
+				g.emit("(assert (not (= (select (select " + name + " 1) 0) 0)))")
+			}
 			if !g.discovery {
 				g.trustedUsed["immutable package variable: "+strings.TrimPrefix(key, "G:")] = true
 			}
@@ -694,5 +697,9 @@ func (g *Gen) immutableKey(key string) bool {
 	if !strings.HasPrefix(key, "G:") {
 		return false
 	}
-	return !strings.HasPrefix(key[2:], g.W.modPath)
+	if !strings.HasPrefix(key[2:], g.W.modPath) {
+		return true
+	}
+	base := strings.TrimSuffix(strings.TrimSuffix(key, ".tag"), ".pay")
+	return g.W.constErr[base]
 }
